@@ -1900,10 +1900,16 @@ func (r *Raft) becomeLeader() {
 
 // becomeFollower transitions this node to the follower state.
 func (r *Raft) becomeFollower(leaderID string, term uint64) {
+	// A vote that was already cast in this term must survive a step down
+	// that does not change the term, otherwise a second vote could be granted.
+	votedFor, sameTerm := r.votedFor, term == r.currentTerm
 	r.state = Follower
 	r.currentTerm = term
 	r.leaderID = leaderID
 	r.votedFor = ""
+	if sameTerm {
+		r.votedFor = votedFor
+	}
 	r.persistTermAndVote()
 	r.resetSnapshotFiles()
 
